@@ -564,9 +564,8 @@ def run_iiv(case, drv):
         mon.append({"cls": "iiv-block-structures-not-all-but-current",
                     "what": f"blocks={blocks} fixed={fixed}: {len(got)} candidates, {len(set(got) ^ want)} differ from the set partitions minus the current one"})
     if drv is not None:
-        ans = drv.ask(["partitions", [rank[e] for e in free]])
-        model_all = back_parts(ans, inv)
-        model_c = [p for p in model_all if not all(b in p for b in cur)]
+        ans = drv.ask(["blockcands", [rank[e] for e in free], [[rank[e] for e in b] for b in cur]])
+        model_c = back_parts(ans, inv)
         if model_c != [c[1] for c in cands]:
             k.append(f"block structures {blocks} fixed {fixed}: model {model_c} code {[c[1] for c in cands]}")
 
